@@ -456,8 +456,7 @@ func otherWord(pair [2]string, w string) string {
 
 // reviewedLints lists lint hits of the reference tree that were read and found intended (kind|function -> reason).
 // The function is named in the reference vocabulary; a helper extracted from it inherits the review.
-var reviewedLints = map[string]string{
-}
+var reviewedLints = map[string]string{}
 
 func init() {
 	an.ReviewedLint = func(kind string, f *an.Func) bool {
